@@ -406,9 +406,12 @@ def run(tier, seed, replay=None):
                 "at a non-zero phase, any other single gate, a circuit of >= 2 layers, a rewiring "
                 "with a != b; distinct by printed form")
     rep.partial = [
-        "whole-circuit statement (eval = ordered product, product of unitaries is unitary, dagger of a "
-        "product) is proved in Lean only box-wise plus C09's functor theorem; at circuit level it is "
-        "checked by exact correspondence and the numpy oracle",
+        "whole-circuit statements (product of unitaries is unitary, dagger of a product) are proved in Lean "
+        "for every well-typed circuit over the gate set (GATES, rotations at phase indices n/8, Controlled(g), "
+        "their daggers; kets/bras <= 4 bits and scalars for the dagger) and generically over any commutative "
+        "star ring; that discopy's eval IS the ordered product of 1(x)gate(x)1 is C09's functor theorem plus "
+        "the exact correspondence of this run; circuits with other gates (kets/bras > 4 bits, custom arrays) "
+        "are covered by correspondence and the numpy oracle only",
         "rewire_spec is proved by `decide` for all (a, b) with a, b < 4 on one generic 4x4 matrix with 16 "
         "distinct entries, not for a symbolic op",
         "the tket matrices are transcribed (cross-checked against pytket at run time)"]
